@@ -58,13 +58,13 @@ def child_env(mode):
 
 
 # ------------------------------------------------------------------ tranche
-def guarded(fn):
+def guarded(fn, factor=1):
     """pre-step runs must never block the tranche: same wall-clock guard as batch runs,
     every outcome (violation, exception, timeout) is ignored here."""
     import signal
     import core
     signal.signal(signal.SIGVTALRM, core._alarm)
-    signal.setitimer(signal.ITIMER_VIRTUAL, core.hang_limit())
+    signal.setitimer(signal.ITIMER_VIRTUAL, factor * core.hang_limit())
     try:
         fn()
     except core.RunTimeout:
@@ -88,7 +88,7 @@ def pre_steps(mod, mode, tier):
             cfg = mod.gen_config(rng, tier)
             guarded(lambda: core.execute(mod.RunClass, cfg, rng=rng, max_steps=min(cfg["steps"], 40)))
         if hasattr(mod, "warm_extra"):
-            guarded(mod.warm_extra)     # warm-up must never decide anything: all outcomes ignored
+            guarded(mod.warm_extra, factor=10)     # warm-up must never decide anything: all outcomes ignored
         if hasattr(mod, "drain_batch_stats"):
             mod.drain_batch_stats()
     if mode == "INTERP" and hasattr(sys, "monitoring") and not os.environ.get("VERIF_FILTER"):
